@@ -16,9 +16,10 @@ of fields, any embedding depth) in the region `WF`.
 namespace ShootVerif.Ctor
 
 /-- the generator's shadow flags do not depend on the order in which fields are collected:
-    an entry is shadowed iff an entry of the same name sits at a smaller depth -/
+    an entry is shadowed iff an entry of the same name sits at a smaller depth, or (promoted entries) a
+    left-out top-level field has that name -/
 theorem C02_shadow_closed_form (t : Tree) :
-    flatten t = walkTop (shadowOf (walkTop noShadow t)) t := flatten_closed t
+    flatten t = walkTop (genShadow t) t := flatten_closed t
 
 /-- `newBodyRec` over the flat list re-parses it into one nested `(&)E{…}` literal per embed -/
 theorem C02_body_reparse (t : Tree) :
@@ -83,7 +84,7 @@ theorem C02_value_at_path (t : Tree) (hwf : WF t = true) :
     cases hsh : genShadow t l.depth l.info.name
     · -- visible leaf
       have hg : goShadowed t l.depth l.info.name = false := by
-        unfold genShadow at hsh; rw [← hag, hsh]
+        rw [← hag, hsh]
       have hnm := nameMap_of_leaf t (hasNewTop t) hts hnd l hl (by simpa using hs) hsh
       cases hok : (!hasNewTop t || l.marked)
       · -- not a parameter: default or zero
@@ -114,13 +115,12 @@ theorem C02_value_at_path (t : Tree) (hwf : WF t = true) :
         rw [h1, h2, hi]
     · -- hidden by a shallower member: default or zero
       have hg : goShadowed t l.depth l.info.name = true := by
-        unfold genShadow at hsh; rw [← hag, hsh]
+        rw [← hag, hsh]
       have hel : eligible t l = false := by simp [eligible, hg]
       simp only [hel, Bool.false_eq_true, ↓reduceIte]
-      unfold genShadow at hsh
       cases hnm : nameMap (hasNewTop t) (flatten t) l.info.name <;>
         by_cases htop : l.top <;> by_cases hd : l.info.defv = "" <;>
-        simp [entryExpr, mkField, hnm, hsh, htop, hd, evalExpr, genShadow]
+        simp [entryExpr, mkField, hnm, hsh, htop, hd, evalExpr]
 
 /-- "the field it is named after" = "the path the literal wrote": a leaf that no shallower member hides
     and that is the only member of its name at its depth is exactly what Go's selector `T.name`
@@ -148,13 +148,21 @@ theorem C02_typeparams (gs : List TParams.Group) :
     rfl
   exact ⟨hp, by unfold TParams.typeParamList TParams.specList; rw [hp]⟩
 
-/-- finding region F_topSkipShadows (recorded in known_findings.json): a `new:"-"` top-level field
-    hides a promoted field of the same name for Go, but the generator drops the skipped field before
-    shadow detection, so the hidden promoted field becomes a constructor parameter -/
-theorem C02_F_topSkipShadows_witness :
+/-- the repaired case (1100e1f): a left-out TOP-level field hides the promoted field of the same name,
+    which is therefore not a parameter -/
+example :
     let t : Tree := .field { name := "name", skip := true }
       (.embed "Core" "Core" true false (.field { name := "name" } .nil) .nil)
-    region t = "F_topSkipShadows" ∧ (gen t).params.length = 1 ∧ (specParams t).length = 0 := by
+    WF t = true ∧ (gen t).params.length = 0 ∧ (specParams t).length = 0 := by
+  decide
+
+/-- finding region F_nestedSkipShadows (recorded in known_findings.json): a left-out field of an
+    EMBEDDED struct hides a deeper promoted field of the same name for Go, but the generator only
+    remembers left-out top-level fields, so the hidden field becomes a constructor parameter -/
+theorem C02_F_nestedSkipShadows_witness :
+    let t : Tree := .embed "A" "A" false false
+      (.field { name := "x", skip := true } (.embed "B" "B" false false (.field { name := "x" } .nil) .nil)) .nil
+    region t = "F_nestedSkipShadows" ∧ (gen t).params.length = 1 ∧ (specParams t).length = 0 := by
   decide
 
 /-! non-vacuity: a struct with a shadowed promoted field, a pointer embed, a `new` mark, a default
